@@ -10,7 +10,7 @@ STAGES = ["mono", "lift", "anf", "go"]
 
 
 def run_model(ctx, sub, lines):
-    p = subprocess.run(["bash", "-c", f"ulimit -s unlimited; exec {vlib.MODEL} {sub}"], input="\n".join(lines) + "\n",
+    p = vlib.srun(["bash", "-c", f"ulimit -s unlimited; exec {vlib.MODEL} {sub}"], input="\n".join(lines) + "\n",
                        stdout=subprocess.PIPE, stderr=subprocess.PIPE, text=True, timeout=3000)
     res = {}
     for l in p.stdout.split("\n"):
